@@ -185,3 +185,43 @@ def _mcsp_finish(c, outcome, args, old):
 _upgrade("stepup/core/workflow.py::Workflow.mark_consuming_steps_pending", ["C09", "C03", "C04", "C05"],
          args=dict(self=ty.Make(_McWorkflow), file=ty.Make(_McFile)), finish=_mcsp_finish,
          loops={0: LoopSpec(step_post=_mc_iteration)})
+
+
+# ---------------------------------------------------------------- Step.has_unavailable_dynamic_input
+
+from contracts.common import FileState, Step, fresh_node  # noqa: E402
+from contracts.trusted import DbStub  # noqa: E402
+
+HUDI_SQL = f"""SELECT EXISTS (
+    SELECT 1 FROM dependency
+    JOIN dynamic_dep ON dynamic_dep.i = dependency.i
+    JOIN file ON file.node = dependency.source
+    WHERE dependency.sink = ?
+    AND file.state NOT IN ({FileState.CONFIRMED.value}, {FileState.BUILT.value})
+)"""
+
+
+def _hudi_self(args):
+    db = DbStub("db", [("SELECT EXISTS ( SELECT 1 FROM dependency", ty.TupleOf(ty.Bool))])
+    st = fresh_node(Step, None, "self")
+    st._fields["graph"] = C03_rerun._Graph(db)
+    return st
+
+
+def _hudi_finish(c, outcome, args, old):
+    """The question asked: is some announced input of this step in a state other than CONFIRMED / BUILT.  Nothing else
+    enters (in particular not the `detached` flag: a deferral that waits for a flag no state change ever clears -- a
+    recycled producer re-attaches its BUILT output without a state change -- would never end; C02: which of two
+    requests arrives first must not decide that)."""
+    if outcome[0] != "return":
+        return
+    st = [e for e in c.trace if e.kind == "sql"]
+    ok = len(st) == 1 and sqlfront.match_key(st[0].sql) == sqlfront.match_key(HUDI_SQL) and isinstance(st[0].args, tuple) \
+        and len(st[0].args) == 1
+    c.prove("asks_for_an_announced_input_that_is_not_confirmed_or_built", tm.And(tm.mk_bool(ok), *(
+        [tm.Eq(I(st[0].args[0]), I(args["self"].i))] if ok else [])), kind="sql", detail=str([e.sql for e in st]))
+    rows = [e for e in c.trace if e.kind == "sql.fetchone"]
+    c.prove("one_row_read", tm.mk_bool(len(rows) == 1), kind="post")
+
+
+_upgrade(STEP + "has_unavailable_dynamic_input", ["C09", "C10", "C02", "C03"], args=dict(self=_hudi_self), finish=_hudi_finish)
